@@ -267,6 +267,8 @@ func main() {
 		crashChild(os.Args[2:])
 	case "lin":
 		cmdLin(os.Args[2:])
+	case "srcfacts":
+		cmdSrcFacts(os.Args[2:])
 	case "sched":
 		cmdSched(os.Args[2:])
 	case "pool":
